@@ -22,6 +22,7 @@
 from __future__ import annotations
 
 import openturns as ot
+from scipy.stats import nct
 
 from gemseo.uncertainty.statistics.tolerance_interval.distribution import (
     BaseToleranceInterval,
@@ -79,8 +80,7 @@ class NormalToleranceInterval(BaseToleranceInterval):
         size: int,
     ) -> float:
         offset = ot.Normal().computeQuantile(coverage)[0] * size**0.5
-        student = ot.Student(size - 1, offset, 1.0)
-        student_quantile = student.computeQuantile(1 - alpha)[0]
+        student_quantile = nct.ppf(1 - alpha, size - 1, offset)
         tolerance_factor = student_quantile / size**0.5
         return self.__mean + tolerance_factor * self.__std
 
@@ -91,7 +91,6 @@ class NormalToleranceInterval(BaseToleranceInterval):
         size: int,
     ) -> float:
         offset = ot.Normal().computeQuantile(coverage)[0] * size**0.5
-        student = ot.Student(size - 1, offset, 1.0)
-        student_quantile = student.computeQuantile(1 - alpha)[0]
+        student_quantile = nct.ppf(1 - alpha, size - 1, offset)
         tolerance_factor = student_quantile / size**0.5
         return self.__mean - tolerance_factor * self.__std
